@@ -169,6 +169,19 @@ def run_event(w, ds, conv, e: dict) -> dict:
         e["obs"] = outcome(sel)
     elif a == "Query":
         e["obs"] = outcome(lambda: sorted(int(v) for v in conv.strtree.query(pt(e["p"]), predicate="intersects")))
+    elif a == "SpatialIndex":
+        def si():
+            import warnings
+            with warnings.catch_warnings():
+                warnings.simplefilter("ignore")
+                index = conv.spatial_index
+            out = []
+            for poly, item in index.query(pt(e["p"])):
+                if item.polygon.intersects(pt(e["p"])):      # the tree returns candidates by bounding box
+                    out.append({"linear": as_int(item.linear_index), "native": native_index(w["conv"], item.index),
+                                "poly": polygon_vertices(item.polygon)})
+            return sorted(out, key=lambda r: r["linear"])
+        e["obs"] = outcome(si)
     elif a == "Lookup":
         def lookup():
             r = conv.get_index_for_point(pt(e["p"]))
